@@ -1592,7 +1592,7 @@ class TCPIP( Object ):
         super( TCPIP, self ).__init__( name=name, **kwds )
 
         if self.instance_id == 0:
-            self.attribute['0'] = Attribute( 'Revision', 		UINT,
+            self.attribute['1'] = Attribute( 'Revision', 		UINT,
                     default=self.config_int( 'Revision', 			3 ))
         else:
             # Instance Attributes
